@@ -124,6 +124,24 @@ theorem C18_strings_is_seq (bytes : Bytes) (cfg : Config) (off : Nat) (ops : Lis
     runOps bytes cfg off ops = runSeq Hint.unknown (itemsFrom bytes cfg off) ops :=
   runOps_eq_runSeq bytes cfg ops off
 
+open Pelite.Seq in
+/-- **… for the enumerator as written** (`self.offset: u32`, strings.rs:95,101,110), with the bound explicit: for
+buffers below 4 GiB every history on the enumerator object whose `next` stores `(i + 1) as u32` (`runOpsW (nextT …)`,
+Spec/Strings.lean; the loops of `count` / `collect` run within the fuel `len + 2`) answers like the same calls on the
+plain list of the runs.  At 4 GiB it does not: `C20_offset_wraps_at_4GiB` (the enumerator never ends). -/
+theorem C18_strings_is_seq_u32 (bytes : Bytes) (cfg : Config) (hsz : bytes.size < 2 ^ 32) (off : Nat)
+    (hoff : off ≤ bytes.size) (ops : List Op) :
+    runOpsW (nextT bytes cfg) (bytes.size + 2) off ops =
+      .ok (runSeq Hint.unknown (itemsFrom bytes cfg off) ops) := by
+  rw [(C20_offset_fits bytes cfg hsz).1, runOpsW_next bytes cfg (bytes.size + 2) (Nat.le_refl _) ops off hoff,
+    C18_strings_is_seq]
+
+/-- the history of the example below on the enumerator as written -/
+example : runOpsW (nextT #[0x1f, 0x43, 0x2d, 0x53, 0x54, 0x00, 0x80, 0x41, 0x41, 0x41, 0xff] ⟨3, 3, false⟩) 13 0
+      [.count, .sizeHint, .nth 1, .clone, .next] =
+    .ok [.num 2, .hint 0 none, .item (some ⟨7, 3, false⟩), .list [], .item none] := by
+  decide +kernel
+
 /-- … and from offset 0 that list is the one C20 is about: `collect` terminates within the fuel
 `len + 2` and, for thresholds ≥ 1, consists of exactly the qualifying maximal runs in ascending order. -/
 theorem C18_strings_items (bytes : Bytes) (cfg : Config) :
